@@ -436,8 +436,19 @@ def gen_case(rng, family, max_iter, small=False):
     lead = () if F is None else (F,)
     E = int(rng.integers(2, 6)) if fam.has_embedding else None
     N = 4 * K * max(D, E or 0) + int(rng.integers(0, 20))
+    with_outliers = (family.startswith('gmm') or fam.has_embedding) and rng.random() < 0.35
+    if with_outliers:
+        # the leverage of an outlier bounds its Mahalanobis distance by ~N / (number of outliers): many observations
+        N = int(rng.integers(2000, 6000))
     y = eu.general_position(rng, lead, N, D, K, fam.complex_obs)
     e = eu.general_position(rng, lead, N, E, K, False) if fam.has_embedding else None
+    outliers = 0
+    if with_outliers:
+        # a few gross outliers (log-pdf hundreds of thousands below the rest of the slice)
+        x = e if fam.has_embedding else y
+        outliers = int(rng.integers(1, 5))
+        idx = rng.choice(N, outliers, replace=False)
+        x[..., idx, :] = x[..., idx, :] * 10.0 ** rng.uniform(1.5, 3.5) * np.std(x)
     init, ikind = eu.positive_start(rng, lead, K, N)
     skind = str(rng.choice(SALIENCY))
     opts = {'weight_constant_axis': list(wca) if isinstance(wca, tuple) else wca,
@@ -448,7 +459,7 @@ def gen_case(rng, family, max_iter, small=False):
         opts['affiliation_eps'] = [0.0, 1e-10][int(rng.integers(2))]
     iterations = int(rng.integers(1, max_iter + 1))
     meta = dict(family=family, K=K, D=D, E=E, F=F, N=N, wca=str(wca), saliency=skind, start=ikind,
-                covariance_norm=str(opts.get('covariance_norm')), iterations=iterations)
+                covariance_norm=str(opts.get('covariance_norm')), iterations=iterations, outliers=outliers)
     return dict(family=family, y=y, e=e, init=init, opts=opts, iterations=iterations), meta
 
 
@@ -472,7 +483,7 @@ def search(ctx):
         em_monotone.last = None
         held = ctx.run(em_monotone, **case)
         last = em_monotone.last or {}
-        for k in ('family', 'wca', 'saliency', 'covariance_norm'):
+        for k in ('family', 'wca', 'saliency', 'covariance_norm', 'outliers'):
             ctx.count(f'search-{k}:{meta[k]}')
         ctx.count('search-steps-judged', int(last.get('judged', 0)))
         ctx.count(f'search-guard:{last.get("guard")}')
